@@ -201,7 +201,14 @@ def alternatives(T, tvs, exotic=True):
                                         "content": ch[0], "_pad": {"index": (1, 1, 0)}}))
             full = [v if v is not None else junk(Tc, jc) for v in tvs]
             for vw in (True, False):
-                mask = [1 if (v is not None) == vw else 0 for v in tvs]
+                # the C++ layer reads a mask byte as "!= 0": non-zero bytes cycle through 1, 2, -1, 127
+                mask, nz = [], 0
+                for v in tvs:
+                    if (v is not None) == vw:
+                        mask.append((1, 2, -1, 127)[nz % 4])
+                        nz += 1
+                    else:
+                        mask.append(0)
                 alts.append(Alt("ByteMaskedArray-%s" % vw, 1, [(Tc, full + [junk(Tc, jc)])],
                                 lambda ch, mask=mask, vw=vw: {"class": "ByteMaskedArray", "mask": np.array(mask, np.int8),
                                                               "valid_when": vw, "content": ch[0]}))
